@@ -14,24 +14,42 @@ JAR = "/opt/veriftools/tla/tla2tools.jar"
 
 # mode "graph": complete state graph; "sim": simulation traces. consts: TLC cfg text of the CONSTANT section and the same
 # constants as Coq values for the model (the shipped cfg's values where one is shipped; see notes/C02.md)
-def expand_states(sysd, cfg_consts, states):
+def _spec_src(sysd):
+    """the file TLC is run on: the shipped .tla, or (gotests pairs, as for tools/tla2coq) the .expectpcal translated by the stock pcal"""
+    return os.path.join(vlib.REPO, sysd["pcal"] if sysd.get("pcal") else sysd["tla"])
+
+
+def _prepare(sysd, d):
+    """copy the spec (and its sibling modules) into d under its module name; gotests pairs: translate with the stock pcal. -> module name"""
+    tla = os.path.join(vlib.REPO, sysd["tla"])
+    src = _spec_src(sysd)
+    mod = re.search(r"-{4,}\s*MODULE\s+(\w+)", open(src, "rb").read().decode(errors="replace")).group(1)
+    shutil.copy(src, os.path.join(d, mod + ".tla"))
+    if sysd.get("pcal"):
+        rc, out, err = vlib.sh(["java", "-XX:+UseParallelGC", "-cp", JAR, "pcal.trans", "-nocfg", mod + ".tla"], cwd=d, timeout=300)
+        if rc != 0:
+            raise ParseError("pcal translator failed: " + (out + err)[-400:])
+    for f in os.listdir(os.path.dirname(tla)):
+        if f.endswith(".tla") and f != os.path.basename(tla) and not os.path.exists(os.path.join(d, f)):
+            shutil.copy(os.path.join(os.path.dirname(tla), f), os.path.join(d, f))
+    return mod
+
+
+def expand_states(sysd, cfg_consts, states, mc_defs=None):
     """TLC's complete successor sets of the given states (TLC's own state text): one model-checking run whose initial
     states are exactly those states and whose exploration stops after two levels (CONSTRAINT TLCGet("level") < 3: states failing a CONSTRAINT are left out of the graph, so the successors must still satisfy it).
     -> (nodes, init ids, edges) as parse_dot, or error"""
-    tla = os.path.join(vlib.REPO, sysd["tla"])
-    src = open(tla, "rb").read()
-    key = G.sha(src, cfg_consts, "expand-level3", "\n".join(states))
+    src = open(_spec_src(sysd), "rb").read()
+    key = G.sha(src, cfg_consts, "expand-level3", "\n".join(states), mc_defs or "")
     d = _cache_dir(key)
     if not os.path.exists(os.path.join(d, "done")):
         shutil.rmtree(d, ignore_errors=True)
         os.makedirs(d)
-        mod = re.search(r"-{4,}\s*MODULE\s+(\w+)", src.decode(errors="replace")).group(1)
-        shutil.copy(tla, os.path.join(d, mod + ".tla"))
-        for f in os.listdir(os.path.dirname(tla)):
-            if f.endswith(".tla") and not os.path.exists(os.path.join(d, f)):
-                shutil.copy(os.path.join(os.path.dirname(tla), f), os.path.join(d, f))
+        mod = _prepare(sysd, d)
+        if mc_defs:
+            open(os.path.join(d, "MC.tla"), "w").write("---- MODULE MC ----\nEXTENDS %s\n%s\n====\n" % (mod, mc_defs))
         body = "---- MODULE Expand ----\nEXTENDS %s\nInitS ==\n%s\nOneStep == TLCGet(\"level\") < 3\n====\n" % (
-            mod, "\n".join("  \\/ (%s)" % st.strip().replace("\n", "\n      ") for st in states))
+            "MC" if mc_defs else mod, "\n".join("  \\/ (%s)" % st.strip().replace("\n", "\n      ") for st in states))
         open(os.path.join(d, "Expand.tla"), "w").write(body)
         open(os.path.join(d, "mc.cfg"), "w").write("CONSTANT defaultInitValue = defaultInitValue\n" + cfg_consts + "\nINIT InitS\nNEXT Next\nCONSTRAINT OneStep\n")
         cmd = ["java", "-XX:+UseParallelGC", "-Xmx4g", "-cp", JAR, "tlc2.TLC", "-deadlock", "-workers", "2", "-config", "mc.cfg",
@@ -61,6 +79,19 @@ def _c(**kw):
     return {"cfg": "\n".join(cfg), "consts": consts}
 
 
+def _nested():
+    """NestedCRDTImpl with one node, two operations, a grow-only counter: the operator-valued CONSTANTs are substituted by
+    operators of a root module MC for TLC and given as finite tables to the Coq model (lib/c02_gen.py _nested_consts)"""
+    cs = dict(G._nested_consts([1], 2))
+    cs["EMPTY_CELL"] = 'VStr "@EMPTY_CELL"'      # a TLC model value (TLC refuses to compare a record with a string)
+    names = ["READ_REQ", "WRITE_REQ", "ABORT_REQ", "PRECOMMIT_REQ", "COMMIT_REQ", "READ_ACK", "WRITE_ACK", "ABORT_ACK", "PRECOMMIT_ACK", "COMMIT_ACK"]
+    cfg = ["CONSTANT BUFFER_SIZE = 2", "CONSTANT ZERO_VALUE = 0", "CONSTANT NUM_OPS = 2", "CONSTANT NODE_IDS = {1}", "CONSTANT EMPTY_CELL = EMPTY_CELL"]
+    cfg += ["CONSTANT %s = %d" % (n, i + 1) for i, n in enumerate(names)]
+    cfg += ["CONSTANT COMBINE_FN <- McMax", "CONSTANT UPDATE_FN <- McUpd", "CONSTANT VIEW_FN <- McView"]
+    return {"cfg": "\n".join(cfg), "consts": list(cs.items()),
+            "mc_defs": "McMax(a, b) == IF a > b THEN a ELSE b\nMcUpd(s, st, v) == st + v\nMcView(st) == st"}
+
+
 TLC_SYSTEMS = {
     # shipped constants (systems/<s>/<s>.cfg); graph = complete state graph
     "locksvc": dict(_c(NumClients=5), mode="graph", shipped="systems/locksvc/locksvc.cfg"),
@@ -75,9 +106,17 @@ TLC_SYSTEMS = {
     "gcounter": dict(_c(NUM_NODES=2, BENCH_NUM_ROUNDS=1), mode="graph"),
     "shopcart": dict(_c(NumNodes=2, BenchNumRounds=1, ElemSet=[0, 1, 2, 3]), mode="graph",
                      note="the shipped shopcart.cfg (ElemSet <- BenchElemSet, a set of pairs) makes TLC fail on the shipped spec: add() indexes addMap with the integer GetVal(self, r)"),
+    "nestedcrdtimpl": dict(_nested(), mode="graph"),
     "proxy": dict(_c(NUM_SERVERS=2, NUM_CLIENTS=1, EXPLORE_FAIL=True, CLIENT_RUN=True), mode="sim"),
     "replicatedkv": dict(_c(BUFFER_SIZE=1, NUM_REPLICAS=1, NUM_CLIENTS=1, DISCONNECT_MSG=1, GET_MSG=2, PUT_MSG=3, NULL_MSG=4, GET_RESPONSE=5,
                             PUT_RESPONSE=6, NULL=0, GET_KEY=10, PUT_KEY=11, PUT_VALUE=12), mode="sim"),
+    # *.gotests pairs: TLC runs on the stock-pcal translation of the .expectpcal, the file tools/tla2coq translates
+    # (hello is left out: its only CONSTANT is an operator and it has one trivial label)
+    "IndexingLocals": dict(_c(), mode="graph"),
+    # its final assertion is false on some paths by design (TLC's full exploration stops there): short traces only
+    "NonDetExploration": dict(_c(), mode="sim", depth=18),
+    "bug2_124": dict(_c(NUM_NODES=2, BUFFER_SIZE=2), mode="sim"),
+    "PBFail4_bug125": dict(_c(BUFFER_SIZE=2, NUM_REPLICAS=2, NUM_CLIENTS=1, EXPLORE_FAIL=True), mode="sim"),
     "bug_167": dict(_c(NUM_REPLICAS=2, NUM_PUT_CLIENTS=1, NUM_GET_CLIENTS=1, EXPLORE_FAIL=True, GET_CLIENT_RUN=True, PUT_CLIENT_RUN=True), mode="sim"),
 }
 
@@ -247,28 +286,30 @@ def _cache_dir(key):
     return d
 
 
-def run_tlc(sysd, cfg_consts, mode, sim_num=30, sim_depth=60, seed=1):
-    """-> directory with graph.dot (mode graph) or trace files sim_* (mode sim); cached by content"""
-    tla = os.path.join(vlib.REPO, sysd["tla"])
-    src = open(tla, "rb").read()
-    key = G.sha(src, cfg_consts, mode, str(sim_num), str(sim_depth), str(seed))
+def run_tlc(sysd, cfg_consts, mode, sim_num=30, sim_depth=60, seed=1, mc_defs=None):
+    """-> directory with graph.dot (mode graph) or trace files sim_* (mode sim); cached by content.
+    mc_defs: definitions put in a root module MC that EXTENDS the spec (operators substituted for operator-valued CONSTANTs)"""
+    src = open(_spec_src(sysd), "rb").read()
+    key = G.sha(src, cfg_consts, mode, str(sim_num), str(sim_depth), str(seed), mc_defs or "")
     d = _cache_dir(key)
     if os.path.exists(os.path.join(d, "done")):
         return d, None
     shutil.rmtree(d, ignore_errors=True)
     os.makedirs(d)
-    mod = re.search(r"-{4,}\s*MODULE\s+(\w+)", src.decode(errors="replace")).group(1)
-    shutil.copy(tla, os.path.join(d, mod + ".tla"))
-    for f in os.listdir(os.path.dirname(tla)):     # sibling modules it may EXTEND
-        if f.endswith(".tla") and not os.path.exists(os.path.join(d, f)):
-            shutil.copy(os.path.join(os.path.dirname(tla), f), os.path.join(d, f))
+    try:
+        mod = _prepare(sysd, d)
+    except ParseError as pe:
+        shutil.rmtree(d, ignore_errors=True)
+        return d, str(pe)
     open(os.path.join(d, "mc.cfg"), "w").write("CONSTANT defaultInitValue = defaultInitValue\n" + cfg_consts + "\nINIT Init\nNEXT Next\n")
     cmd = ["java", "-XX:+UseParallelGC", "-Xmx4g", "-cp", JAR, "tlc2.TLC", "-deadlock", "-workers", "4", "-config", "mc.cfg"]
     if mode == "graph":
         cmd += ["-dump", "dot,actionlabels", "graph.dot"]
     else:
         cmd += ["-simulate", "file=sim,num=%d" % sim_num, "-depth", str(sim_depth), "-seed", str(seed)]
-    cmd += [mod + ".tla"]
+    if mc_defs:
+        open(os.path.join(d, "MC.tla"), "w").write("---- MODULE MC ----\nEXTENDS %s\n%s\n====\n" % (mod, mc_defs))
+    cmd += ["MC.tla" if mc_defs else mod + ".tla"]
     rc, out, err = vlib.sh(cmd, cwd=d, timeout=(240 if mode == "graph" else 900))
     if rc == 124 or ("Error:" in out and "Deadlock" not in out) or (mode == "graph" and not os.path.exists(os.path.join(d, "graph.dot"))):
         shutil.rmtree(d, ignore_errors=True)      # never keep a partial (possibly huge) dump
@@ -349,7 +390,7 @@ def check_graph(info, sysd, spec, rng, max_states, log):
     if e:
         return {"error": e}
     _tl.drop = scratch_vars(info["name"])
-    d, err = run_tlc(sysd, spec["cfg"], "graph")
+    d, err = run_tlc(sysd, spec["cfg"], "graph", mc_defs=spec.get("mc_defs"))
     if err:
         return {"error": err}
     nodes, init, edges = parse_dot(os.path.join(d, "graph.dot"))
@@ -400,7 +441,8 @@ def check_sim(info, sysd, spec, n_traces, depth, seed, max_steps, log, n_expand=
     if e:
         return {"error": e}
     _tl.drop = scratch_vars(info["name"])
-    d, err = run_tlc(sysd, spec["cfg"], "sim", n_traces, depth, seed)
+    depth = spec.get("depth", depth)
+    d, err = run_tlc(sysd, spec["cfg"], "sim", n_traces, depth, seed, mc_defs=spec.get("mc_defs"))
     if err:
         return {"error": err}
     files = sorted(f for f in os.listdir(d) if f.startswith("sim_"))
@@ -443,7 +485,7 @@ def check_sim(info, sysd, spec, n_traces, depth, seed, max_steps, log, n_expand=
         sample = _r.Random(seed).sample(uniq, min(n_expand, len(uniq)))
         res["states_expanded"] = 0
         if sample:
-            g, e2 = expand_states(sysd, spec["cfg"], sample)
+            g, e2 = expand_states(sysd, spec["cfg"], sample, spec.get("mc_defs"))
             if e2:
                 res["error"] = e2
                 return res
